@@ -7,13 +7,13 @@ G3 predecessor/successor queries agree with their roles
 import ast
 import re
 
-from ..index import AnalysisError
+from ..index import AnalysisError, walk_no_nested
 from ..norm import Canon, effects_of_event, effects_along
 from ..paths import Frame
 from .common import (bound_args, call_name, calls_to, enclosing_loops,
                      iteration_segments, short)
 
-FLOORS = {'C14.G1': 4, 'C14.G2': 6, 'C14.G3': 2}
+FLOORS = {'C14.G1': 4, 'C14.G2': 6, 'C14.G3': 2, 'C14.G4': 1}
 
 PRED_ROLE = {'predecessors', 'pred', 'in_edges'}
 SUCC_ROLE = {'successors', 'succ', 'neighbors', 'adj', 'out_edges'}
@@ -112,6 +112,30 @@ def check(repo, res, tier):
     # ---- Task(...) arguments -------------------------------------------
     for tc in task_calls:
         check_task_args(repo, canon, res, f, fr, tc, node_loop, ab, G, NODE)
+    # ---- G4: the workflow graph itself is what the file describes -----------------
+    res.rule('C14.G4', 'the workflow graph is read with networkx node_link_graph from the file\'s "graph" entry (every node of '
+                       'the file is a node of the graph, also one without edges)')
+    for cand in repo.methods_named('_workflow_to_nx'):
+        if not f.cls.is_subclass_of(cand.cls.name):
+            continue
+        wfr = Frame(cand)
+        res.analysed(cand, 1)
+        for r in [n for n in walk_no_nested(cand.node) if isinstance(n, ast.Return) and n.value is not None]:
+            P = canon.p(r.value, wfr)
+            if re.fullmatch(r"(?:[\w.]+\.)?node_link_graph\(.*json\.load\(.*\).*\['graph'\].*\)", P):
+                res.ok('C14.G4', cand, r, 'graph <- node_link_graph(json.load(file)["graph"])')
+            else:
+                # a hand-made reader must add every node of the file, not only the end points of its edges
+                adds_nodes = any(isinstance(x, ast.Call) and call_name(x) in ('add_node', 'add_nodes_from')
+                                 for x in walk_no_nested(cand.node))
+                if adds_nodes:
+                    res.ok('C14.G4', cand, r, 'hand-made reader adds the nodes of the file (add_node/add_nodes_from)',
+                           short(P, 80))
+                else:
+                    res.bad('C14.G4', cand, r, 'graph <- %s' % short(P, 80),
+                            'the workflow graph is built as %s and no statement adds the nodes of the file as nodes '
+                            '(set_node_attributes only touches nodes that exist): a node without edges is dropped and gets no '
+                            'task' % short(P, 120))
     # ---- G3 --------------------------------------------------------------
     for q, role, other in (('WorkflowPlan.get_task_predecessors', PRED_ROLE, SUCC_ROLE),
                            ('WorkflowPlan.get_task_successors', SUCC_ROLE, PRED_ROLE)):
